@@ -950,6 +950,10 @@ func (repo *Repository) consolidate(ctx context.Context) error {
 
 		newBranch, err := branch.Connect(ctx, repo.store, newBranches)
 		if err != nil {
+			if errors.Cause(err) == ErrBranchContained {
+				continue // all of its headers are in the new main branch
+			}
+
 			logger.ErrorWithFields(ctx, []logger.Field{
 				logger.String("branch_name", branch.Name()),
 				logger.Stringer("previous_block_hash", branch.PreviousHash()),
